@@ -141,9 +141,9 @@ def insertTy (v : Var) (t : VarTy) (name : Str) (value : Val) : Res Var :=
   | .double => v.insertDouble name value
   | .string => v.insertString name value
 
-/-- `store`: the pool test comes first -/
+/-- `store`: the pool test comes first; it refuses only a name that is not in the pool yet (D23) -/
 def store (v : Var) (name : Str) (value : Val) : Res Var :=
-  if v.vars.length > 65535 then err Code.outOfMemory
+  if v.vars.length > 65535 ∧ ¬ AL.contains name v.vars then err Code.outOfMemory
   else do
     match ← v.tyOf name with
     | some t => v.insertTy t name value
